@@ -49,6 +49,9 @@ ASSUMPTIONS["C16"] = [
     "trimesh documents the absolute tol.merge=1e-8 below which two vertices are one vertex (convex_hull builds its result "
     "with Trimesh(process=True)): sets with two distinct points closer than 2e-8 are skipped, and flattened sets are not "
     "also scaled down, so that the thickness of a generated set stays above ~1e-7",
+    "trimesh documents the absolute tol.zero=1e-13 on cross products below which a face has no normal (face_normals returns a "
+    "zero vector): 3-D sets whose hull has a well-shaped face (height/longest edge >= 1e-3) with |cross| <= 4e-13, i.e. sets "
+    "below ~1e-6 across or needles with such end faces, are skipped (oriented_bounds raises 'Points must be coplanar' there)",
     "exactly coplanar 3-D input (class planar3, tested in-tree by test_obb_coplanar_points) makes convex_hull fall back to "
     "qhull 'QJ' (joggled input, seeded from the clock inside qhull): boxes of that class get an extra allowance of "
     "1.2e6*eps*M (qh_JOGGLEdefault=30000 x DISTround) and the outcome of such a case may differ between two runs",
@@ -117,6 +120,24 @@ class PS:
         else:
             self.min_gap = 0.0
         self.above_merge_tol = bool(self.min_gap >= 2e-8)
+        # trimesh computes normals with the documented absolute tol.zero = 1e-13 on the cross product (units of
+        # length^2): Trimesh.face_normals / util.unitize return a zero vector for a triangle whose |cross| is below it,
+        # however well shaped (edges below ~3e-7). A 3-D set whose hull has such a well-shaped face (height / longest
+        # edge >= 1e-3; slivers are exempt, they are degenerate by shape at any scale) is below that resolution.
+        self.above_zero_tol = True
+        if self.d == 3 and len(self.U) >= 4:
+            try:
+                from scipy.spatial import ConvexHull
+
+                q = ConvexHull(self.U, qhull_options="Qt")
+                tri = q.points[q.simplices]
+                e = np.stack((tri[:, 1] - tri[:, 0], tri[:, 2] - tri[:, 0], tri[:, 2] - tri[:, 1]), axis=1)
+                cr = np.linalg.norm(np.cross(e[:, 0], e[:, 1]), axis=1)
+                lmax2 = (e**2).sum(axis=2).max(axis=1)
+                shaped = cr >= 1e-3 * lmax2
+                self.above_zero_tol = bool(not shaped.any() or cr[shaped].min() > 4e-13)
+            except Exception:  # noqa  (coplanar etc.: the other rules decide)
+                pass
 
     # tolerance for "point within a bounding volume computed from the hull vertices":
     #   64 ulp of the coordinate magnitude  (a handful of float64 matrix products / un-normalisations of
@@ -144,7 +165,7 @@ def scale_classes(spec, ps):
 
 
 def in_generated_domain(ps):
-    return ps.spanning and ps.above_merge_tol
+    return ps.spanning and ps.above_merge_tol and ps.above_zero_tol
 
 
 def rigid_clause(T, d, sigbase, who):
@@ -1314,6 +1335,9 @@ REQUIRED_CLASSES["C16"] = [
     "dt:list",
     "dt:float64_readonly",
     "dt:mag=full",
+    "hull:scale:tiny",
+    "box:scale:tiny",
+    "box:needle",
     "seq:transform=mirror",
     "seq:transform=neg_uniform",
     "seq:transform=similarity",
